@@ -780,6 +780,18 @@ func owsimCase(c *core.Ctx, race bool) {
 	} else {
 		cmd.Env = append(cmd.Env, "OW_SIM_TRACE="+tracePath)
 	}
+	if gc.DelaySeed%5 == 0 {
+		// the result may not depend on the process environment: a fifth of the executions run with the temporary
+		// directory on another filesystem than the output file (tmpfs), from another working directory
+		if st, err := os.Stat("/dev/shm"); err == nil && st.IsDir() {
+			if td, err := os.MkdirTemp("/dev/shm", "verif-owsim-"); err == nil {
+				defer os.RemoveAll(td)
+				cmd.Env = append(cmd.Env, "TMPDIR="+td)
+				cmd.Dir = td
+				c.Tag("env:tmpdir-on-another-filesystem")
+			}
+		}
+	}
 	// stdout/stderr go to files: with pipes, Wait would also wait for the -writer child that
 	// inherits stdout, and the harness could not see a parent that exits before its writer is done
 	soF, _ := os.Create(filepath.Join(dir, "stdout.log"))
